@@ -1,0 +1,58 @@
+// SPDX-FileCopyrightText: 2022 Kalle Fagerberg
+//
+// SPDX-License-Identifier: MIT
+
+//go:build verif
+
+package sync2
+
+// Verification hooks, compiled in only with the "verif" build tag. A test
+// harness that owns the schedule installs functions in VerifHooks; the
+// package calls them immediately before every atomic access and every
+// blocking lock acquisition of Map and the keyed mutexes, so that the harness
+// can decide which goroutine performs the next step. With nil fields (the
+// default) the hooks do nothing.
+
+type verifTryLocker = interface {
+	TryLock() bool
+	Unlock()
+}
+
+type verifTryRLocker = interface {
+	TryRLock() bool
+	RUnlock()
+}
+
+// VerifHooks is read, never written, by this package.
+var VerifHooks struct {
+	// Yield is called before an atomic access; site names the call site.
+	Yield func(site string)
+	// Lock is called before l.Lock() would be called.
+	Lock func(site string, l interface {
+		TryLock() bool
+		Unlock()
+	})
+	// RLock is called before l.RLock() would be called.
+	RLock func(site string, l interface {
+		TryRLock() bool
+		RUnlock()
+	})
+}
+
+func verifYield(site string) {
+	if f := VerifHooks.Yield; f != nil {
+		f(site)
+	}
+}
+
+func verifLock(site string, l verifTryLocker) {
+	if f := VerifHooks.Lock; f != nil {
+		f(site, l)
+	}
+}
+
+func verifRLock(site string, l verifTryRLocker) {
+	if f := VerifHooks.RLock; f != nil {
+		f(site, l)
+	}
+}
